@@ -21,10 +21,10 @@ type hashState struct {
 }
 
 func (h *hashState) Write(p []byte) (int, error) { h.data = append(h.data, p...); return len(p), nil }
-func (h *hashState) Sum(b []byte) []byte          { return append(b, zz.Hash(h.kind, h.data, h.n)...) }
-func (h *hashState) Reset()                       { h.data = nil }
-func (h *hashState) Size() int                    { return h.n }
-func (h *hashState) BlockSize() int               { return 64 }
+func (h *hashState) Sum(b []byte) []byte         { return append(b, zz.Hash(h.kind, h.data, h.n)...) }
+func (h *hashState) Reset()                      { h.data = nil }
+func (h *hashState) Size() int                   { return h.n }
+func (h *hashState) BlockSize() int              { return 64 }
 
 //verif:replace crypto/md5.New
 func Md5New() hash.Hash { return &hashState{kind: "md5", n: 16} }
